@@ -126,7 +126,7 @@ var _ = sym.Register("HC13_Small", HC13_Small)
 // HC13_Small: every multiset of 1..N symbolic grid points (duplicates and collinear runs arise from
 // the symbolic equalities); sort.Sort, TreeSet, CoordStack, cleanRing run for real.
 func HC13_Small() {
-	N := sym.Param("N", sym.Pick(4, 5))
+	N := sym.Param("N", 4) // 5 points: ~50x the paths, not run
 	K := 20
 	sym.Bound("points", N)
 	sym.Bound("grid bits", K)
